@@ -52,6 +52,25 @@ theorem parse_exact (bs : Bytes) (is : Container) (h : parse bs = .ok is) :
     serialize is = bs ∧ ItemsOk is :=
   ⟨serialize_parse bs is h, parse_ok_itemsOk bs is h⟩
 
+/-- A container that was READ (a request) and is then written to (a handler that adds items to what it received and sends
+    it on): what it serialises to is the bytes it was read from followed by the encoding of what was added — for every
+    input that parses, every tag and every value; nothing that was set is lost, nothing is sent twice. -/
+theorem set_after_parse (bs : Bytes) (is : Container) (h : parse bs = .ok is) (ops : List (UInt8 × Bytes)) :
+    serialize (ops.foldl (fun c op => setBytes c op.1 op.2) is) = bs ++ serialize (runSets ops) := by
+  have hs : serialize is = bs := serialize_parse bs is h
+  have key : ∀ (ops : List (UInt8 × Bytes)) (c d : Container),
+      ops.foldl (fun c op => setBytes c op.1 op.2) (c ++ d) = c ++ ops.foldl (fun c op => setBytes c op.1 op.2) d := by
+    intro ops
+    induction ops with
+    | nil => intro c d; rfl
+    | cons o os ih =>
+      intro c d
+      simp only [List.foldl_cons, setBytes, List.append_assoc]
+      exact ih c (d ++ (chunks 255 o.2).map (Item.mk o.1))
+  have := key ops is []
+  simp only [List.append_nil] at this
+  rw [this, serialize_append, hs]; rfl
+
 /-- totality, stated: every input is either parsed or rejected with one of the two error kinds -/
 theorem parse_total (bs : Bytes) :
     (∃ is, parse bs = .ok is) ∨ parse bs = .error .eof ∨ parse bs = .error .unexpectedEof := by
